@@ -375,6 +375,20 @@ pub struct Scenario {
     /// one fault of the disk seam: the nth call of that kind made by the code under test fails
     #[serde(default)]
     pub disk_fault: Option<DiskFault>,
+    /// what the owner of the served directory does to it between two phases of connections
+    #[serde(default)]
+    pub owner_ops: Vec<OwnerOp>,
+}
+
+/// The owner redeploys, cleans up or unmounts while the server keeps running. `path` is relative to
+/// the scratch base (like tree entries).
+#[derive(Serialize, Deserialize, Clone, Debug, PartialEq)]
+pub struct OwnerOp {
+    /// applied when all connections of earlier phases have ended, before this phase starts
+    pub before_phase: u32,
+    /// "remove_tree" (the directory and everything below), "remove_file", "truncate", "replace_with_empty_dir"
+    pub kind: String,
+    pub path: String,
 }
 
 /// what the disk can do to a server: a file that ends before its size says (it was truncated or is
@@ -408,6 +422,7 @@ impl Scenario {
             probe: Probe::None,
             pool: None,
             disk_fault: None,
+            owner_ops: vec![],
         }
     }
 }
